@@ -89,6 +89,9 @@ fn run_input(prop: &str, e: &Entry, input: &[u8], origin: &str, st: &mut Stats) 
                         );
                     } else {
                         st.nontrivial += 1;
+                        if st.samples.len() < 2 && origin != "alphabet" && input.len() >= 3 {
+                            st.sample(json!({"type": e.name, "input": hex(input), "origin": origin, "outcome": d.out.class(), "largest_allocation_request": d.max_alloc, "profile": profile()}));
+                        }
                     }
                 }
             }
